@@ -389,6 +389,10 @@ def overlap_schedules(tier):
         rapid.append({"overlap": True, "cross": cmd, "target": "running"})
     for cmd in ("start", "step", "cleanup"):
         rapid.append({"overlap": True, "cross": cmd, "target": "paused"})
+    # initialize() whose construct_model() raises, then cleanup / another initialize: no run thread is left behind
+    for before in ("fresh", "initialized", "paused", "ended"):
+        for after in ("cleanup", "init", "init+cleanup"):
+            rapid.append({"overlap": True, "failed_init": before, "then": after})
     # the tail of the run thread's stop transition: after it has written STOPPED, before it parks again
     for cmd in ("start", "rut", "step"):
         rapid.append({"overlap": True, "tail": "after-STOPPED-write", "cmd": cmd})
@@ -412,6 +416,8 @@ def overlap_schedules(tier):
 
 
 def sched_id(c):
+    if "failed_init" in c:
+        return "failed-init/%s/%s" % (c["failed_init"], c["then"])
     if "cross" in c:
         return "cross/%s/%s" % (c["cross"], c["target"])
     if "rapid" in c:
@@ -527,6 +533,78 @@ def grammar(out, log, warm_hex, sid):
 
 RAPID_PROG = {"clock": "float", "cap": 10 ** 9, "rep": {"start": fx(0.0), "warmup": fx(0.0), "length": fx(1e15)},
               "root": [["rel", fx(1.0), 0, 5]], "nodes": [[["rel", fx(1.0), 0, 5]]]}
+
+
+def run_failed_init(c):
+    """construct_model() raises in the middle of initialize().  Whatever state the simulator reports afterwards, a
+    following cleanup() (the usual try/finally) or a successful initialize() leaves no run thread behind, and the
+    simulator is usable: the next replication runs to its end with every event exactly once."""
+    from pydsol.core.utils import DSOLError
+    out = Outcome()
+    sid = sched_id(c)
+    out.label("overlap", "failed-initialize")
+    out.nontrivial = True
+    ref = RefSim(PROGS[0])
+    ref.initialize()
+    ref.run()
+    h = Harness(PROGS[0])
+    sim = h.sim
+    try:
+        if c["failed_init"] != "fresh":
+            h.initialize()
+            if c["failed_init"] == "paused":
+                h.run_piece(["run_up_to", fx(5.0)])
+            elif c["failed_init"] == "ended":
+                h.run_piece(["start"])
+        boom = {"on": True}
+        prev = h.model.extra_construct
+
+        def failing_construct(m):
+            if boom["on"]:
+                raise RuntimeError("construct_model fails")
+            if prev is not None:
+                prev(m)
+        h.model.extra_construct = failing_construct
+        try:
+            h.initialize()
+            out.fail("failed-init-not-reported:" + sid, None)
+        except Exception:
+            pass
+        boom["on"] = False
+        for step in c["then"].split("+"):
+            if step == "cleanup":
+                e_ = _issue(sim, h, "cleanup")
+                if e_ is not None:
+                    out.fail("overlap-raised-%s:%s" % (type(e_).__name__, sid), repr(e_))
+                st_ = h.settle(allow_limbo=True)
+                alive = [w for w in h.workers_all() if w.is_alive()]
+                for w in alive:
+                    w.join(2.0)
+                if any(w.is_alive() for w in alive):
+                    out.fail("run-thread-alive-after-cleanup", {"schedule": sid})
+                if (sim.run_state.name, sim.replication_state.name) != ("NOT_INITIALIZED", "NOT_INITIALIZED"):
+                    out.fail("overlap-inconsistent-state:" + sid, [sim.run_state.name, sim.replication_state.name])
+            else:
+                try:
+                    h.rec = Recorder()
+                    h.initialize()
+                except Exception as e_:
+                    out.fail("overlap-completion-refused:" + sid, "initialize after a failed initialize: " + repr(e_))
+                    break
+                e2 = h.run_piece(["start"])
+                if e2 is not None:
+                    out.fail("overlap-completion-refused:" + sid, repr(e2))
+                elif (sim.run_state.name, sim.replication_state.name) != ("ENDED", "ENDED"):
+                    out.fail("overlap-completion-not-ended:" + sid, [sim.run_state.name, sim.replication_state.name])
+                elif [t for t in h.model.trace if t[0] != "W"] != ref.model_trace():
+                    out.fail("overlap-events-lost-or-duplicated:" + sid, {"len": len(h.model.trace)})
+            if out.disc:
+                break
+    finally:
+        if h.finish():
+            out.fail("overlap-thread-leak:%s" % sid, None)
+    out.info = {"schedule": sid}
+    return out
 
 
 def run_cross(c):
@@ -891,6 +969,8 @@ def run_overlap(c):
         return run_tail(c)
     if "cross" in c:
         return run_cross(c)
+    if "failed_init" in c:
+        return run_failed_init(c)
     if "rapid" in c:
         return run_rapid(c)
     if "reentrant" in c:
